@@ -41,7 +41,12 @@ def _writeTracebackMessage(logger, typ, exception, traceback, extract_fields=Tru
     """
     msg = TRACEBACK_MESSAGE(reason=exception, traceback=traceback, exception=typ)
     if extract_fields:
-        msg = msg.bind(**_error_extraction.get_fields_for_exception(logger, exception))
+        fields = dict(_error_extraction.get_fields_for_exception(logger, exception))
+        # The exception's own type, text and traceback are not the extractor's
+        # to override (a string in place of the type cannot even be serialized):
+        for key in (REASON_FIELD, EXCEPTION_FIELD, "traceback"):
+            fields.pop(key, None)
+        msg = msg.bind(**fields)
     msg.write(logger)
 
 
